@@ -275,7 +275,12 @@ fn real_parent(pool: &Pool, i: usize) -> Option<usize> { let h = &pool.h[i]; h.n
 pub struct Snapshot { dumps: Vec<String>, parents: Vec<Option<usize>>, children: Vec<Vec<usize>>, data: Vec<Option<String>>, ser: Vec<String>, attrs: Vec<Vec<usize>> }
 
 /// reference lines: white space of the replacement text as a space (it reads differently in attributes and in content)
-fn canon_dump(s: &str) -> String { if s.is_empty() { return String::new(); } s.lines().map(|l| if l.starts_with("R ") && !l.contains(" \"&#") { l.replace("\\n", " ").replace("\\t", " ").replace("\\r", " ") } else { l.to_string() }).collect::<Vec<_>>().join("\n") + "\n" }
+fn canon_dump(s: &str) -> String {
+    if s.is_empty() { return String::new(); }
+    // a character-reference line carries the reference itself as its name (R <depth> "&#97;" ...); an entity's *value* may begin with "&#" too
+    let charref_line = |l: &str| -> bool { l.splitn(3, ' ').nth(2).map(|rest| rest.starts_with("\"&#")).unwrap_or(false) };
+    s.lines().map(|l| if l.starts_with("R ") && !charref_line(l) { l.replace("\\n", " ").replace("\\t", " ").replace("\\r", " ") } else { l.to_string() }).collect::<Vec<_>>().join("\n") + "\n"
+}
 
 pub fn snapshot(h: &Hist) -> Result<Snapshot, String> {
     let mut s = Snapshot { dumps: vec![], parents: vec![], children: vec![], data: vec![], ser: vec![], attrs: vec![] };
